@@ -91,6 +91,35 @@ def make_func(sig, name='kf', strret=False, method=False):
     return f, src
 
 
+def make_siblings(sig, defaults):
+    """functions made by one factory (one code object) that differ in the value of their defaults:
+    def factory(D): def kf(x, y=D, ...): ...  -> [factory(d) for d in defaults]"""
+    params = []
+    for p in sig['pos']:
+        params.append(p['n'] + ('=D' if p['hd'] else ''))
+    if sig['va']:
+        params.append('*a')
+    elif sig['ko']:
+        params.append('*')
+    for p in sig['ko']:
+        params.append(p['n'] + ('=D' if p['hd'] else ''))
+    if sig['vk']:
+        params.append('**kw')
+    named = [p['n'] for p in sig['pos']] + [p['n'] for p in sig['ko']]
+    tok = '(%s, %s, %s)' % ('(' + ''.join('(%r, %s), ' % (n, n) for n in named) + ')',
+                             'tuple(a)' if sig['va'] else '()',
+                             'tuple(kw.items())' if sig['vk'] else '()')
+    src = 'def factory(D):\n    def kf(%s):\n        EVALS.append(1)\n        return %s\n    return kf\n' % (', '.join(params), tok)
+    ns = {'EVALS': EVALS}
+    exec(src, ns)
+    out = []
+    for d in defaults:
+        f = ns['factory'](d)
+        f.__module__ = 'harness.key_driver'
+        out.append(f)
+    return out, src
+
+
 def token_log(tok):
     if tok is None:
         return {'ok': False, 'b': [], 'extra': [], 'xkw': []}
@@ -171,6 +200,22 @@ def run_group(klepto, group, km, mode, variant=None, cache=None):
     keymap = make_keymap(klepto, km, **(variant or {}))
     cached = mode in ('std', 'safe')
     pkw = {}
+    sig_used = group['sig']
+    if kind == 'sibling':
+        # two functions from one factory (one code object): the first (defaults 2, as in the catalogue) is decorated and
+        # called once, the one under test has the default 1 - its keys must be built from ITS defaults
+        d1 = {'t': 'int', 'v': 1}
+        (first, func), src = make_siblings(group['sig'], [2, 1])
+        (_, raw), _ = make_siblings(group['sig'], [2, 1])
+        sig_used = {'pos': [dict(p, d=d1) if p['hd'] else p for p in group['sig']['pos']], 'va': group['sig']['va'],
+                    'ko': [dict(p, d=d1) if p['hd'] else p for p in group['sig']['ko']], 'vk': group['sig']['vk']}
+        try:
+            warm = (klepto.safe if mode == 'safe' else klepto).inf_cache(keymap=make_keymap(klepto, km, **(variant or {})))(first)
+            c0 = group['calls'][0]
+            warm(*[val(v) for v in c0['p']], **{it['n']: val(it['v']) for it in c0['k']})
+        except Exception:
+            pass
+        src += 'kf = factory(1)   # after factory(2) was decorated and called'
     if kind == 'partial':
         import functools
         pkw = {'k': val({'t': 'int', 'v': 1})}       # the keyword-only default is 2: the partial binds another value
@@ -238,7 +283,7 @@ def run_group(klepto, group, km, mode, variant=None, cache=None):
             e['evals'] = len(EVALS) - n0
             e['kind'] = 'hit' if i1.hit > i0.hit else 'load' if i1.load > i0.load else 'miss' if i1.miss > i0.miss else 'none'
         events.append(e)
-    return {'sig': group['sig'], 'ign': group['ign'], 'km': km, 'cached': cached, 'events': events,
+    return {'sig': sig_used, 'ign': group['ign'], 'km': km, 'cached': cached, 'events': events,
             'meta': {'sid': group['sid'], 'iid': group['iid'], 'mode': mode, 'variant': dict(variant or {}, kind=kind), 'src': src,
                      'ignore': [str(x) for x in (ignore if isinstance(ignore, tuple) else (ignore,))], 'kind': kind,
                      'bare': bool(group.get('bare'))}}
